@@ -116,6 +116,8 @@ def runCase (c : Case) : Verdict := Id.run do
         | .triggerNoop _ => v := { v with cov := addCov v.cov "fshook" }
         | _ => pure ()
       if (s'.regs.any (fun e => e.queue.length ≥ 2)) then v := { v with cov := addCov v.cov "queue2" }
+      if (s'.regs.any (fun e => e.queue.length > 64)) then v := { v with cov := addCov v.cov "backlog64" }
+      if (s'.regs.any (fun e => e.queue.length > 200)) then v := { v with cov := addCov v.cov "backlog200" }
     | .dropHandle _, _ => if !out.resumed.isEmpty then v := { v with cov := addCov v.cov "resume-handle" }
     | .dropBarrier _, _ => if !out.resumed.isEmpty then v := { v with cov := addCov v.cov "resume-barrierdrop" }
     | .wait _, .got _ _ => v := { v with cov := addCov v.cov "report" }
